@@ -409,3 +409,77 @@ Definition fast_path_rebase (fb : str -> str -> option str) (orig new : list str
                                  tracked out notes
            end
        end.
+
+(* ------------------------------------------------------------------ (d) commit-object header scan *)
+(* load_commit_metadata_batch, the per-object part: which tree and first parent the comparator is
+   handed.  `content` is the commit object as text (code points): header lines, an empty line, the
+   message.  Keywords and the early exit are read from the source (Gen/GenRemap.v). *)
+
+(* str::strip_prefix *)
+Fixpoint strip_prefix (p s : str) : option str :=
+  match p, s with
+  | [], _ => Some s
+  | x :: p', y :: s' => if x =? y then strip_prefix p' s' else None
+  | _ :: _, [] => None
+  end.
+
+Fixpoint trim_start (s : str) : str :=
+  match s with
+  | c :: s' => if is_ws c then trim_start s' else s
+  | [] => []
+  end.
+
+Definition trim (s : str) : str := trim_start (trim_end s).
+
+Definition is_some {A} (o : option A) : bool := match o with Some _ => true | None => false end.
+
+(* one iteration of `for line in content.lines()` on the state (tree_oid, first_parent) *)
+Definition meta_step (l : str) (st : str * option str) : str * option str :=
+  let (tree, parent) := st in
+  match strip_prefix meta_kw_tree l with
+  | Some rest => (trim rest, parent)
+  | None =>
+      match parent with
+      | Some _ => (tree, parent)
+      | None =>
+          match strip_prefix meta_kw_parent l with
+          | Some rest => (tree, Some (trim rest))
+          | None => (tree, parent)
+          end
+      end
+  end.
+
+Fixpoint scan_meta (early : bool) (ls : list str) (st : str * option str) : str * option str :=
+  match ls with
+  | [] => st
+  | l :: ls' =>
+      let st' := meta_step l st in
+      if early && nonempty (fst st') && is_some (snd st') then st'      (* break *)
+      else scan_meta early ls' st'
+  end.
+
+Definition commit_meta_gen (early : bool) (content : str) : str * option str :=
+  scan_meta early (lines content) ([], None).
+
+(* the scan the source has now *)
+Definition commit_meta (content : str) : str * option str := commit_meta_gen meta_early_exit content.
+
+(* spec: a commit object's headers end at the first empty line; the tree is the first `tree` header,
+   the first parent the first `parent` header; the message is never looked at *)
+Fixpoint header_lines (ls : list str) : list str :=
+  match ls with
+  | [] => []
+  | l :: ls' => if nonempty l then l :: header_lines ls' else []
+  end.
+
+Fixpoint first_with (kw : str) (ls : list str) : option str :=
+  match ls with
+  | [] => None
+  | l :: ls' => match strip_prefix kw l with Some rest => Some (trim rest) | None => first_with kw ls' end
+  end.
+
+Definition header_meta (content : str) : str * option str :=
+  let h := header_lines (lines content) in
+  (match first_with meta_kw_tree h with Some t => t | None => [] end, first_with meta_kw_parent h).
+
+Definition oid_ok (s : str) : bool := nonempty s && forallb is_hex s.
